@@ -264,13 +264,13 @@ theorem step_event_ok (E : Env α) (l : List α) (op : Op α) (o : Out α) (e : 
     · simp only [Except.ok.injEq] at h; subst h
       simp only [Option.some.injEq] at he; subst he
       exact replay_whole l l.reverse
-  | sort =>
+  | sort sp =>
     simp only [TraitList.step] at h
     split at h
     · simp only [Except.ok.injEq] at h; subst h; cases he
     · simp only [Except.ok.injEq] at h; subst h
       simp only [Option.some.injEq] at he; subst he
-      exact replay_whole l (E.sort l)
+      exact replay_whole l (E.sort sp l)
 
 
 /-! ### number of selected items; silent operations -/
@@ -355,7 +355,7 @@ theorem delSlice_silent {l : List α} {s : Slice} {l' : List α}
       exact delPositionsAux_keep [] 0 l (by simp)
 
 /-- `list.sort` returns a permutation of its input (all the model needs of it). -/
-def SortOk (E : Env α) : Prop := ∀ l : List α, (E.sort l).Perm l
+def SortOk (E : Env α) : Prop := ∀ (sp : Nat) (l : List α), (E.sort sp l).Perm l
 
 /-- **Silence**: an operation that emits no event did not change the contents. -/
 theorem step_silent (E : Env α) (hs : SortOk E) (l : List α) (op : Op α) (o : Out α)
@@ -495,14 +495,14 @@ theorem step_silent (E : Env α) (hs : SortOk E) (l : List α) (op : Op α) (o :
       simp only [Except.ok.injEq] at h; subst h
       simp only [List.isEmpty_iff] at hemp; simp [hemp]
     · simp only [Except.ok.injEq] at h; subst h; cases he
-  | sort =>
+  | sort sp =>
     simp only [TraitList.step] at h
     split at h
     · rename_i hemp
       simp only [Except.ok.injEq] at h; subst h
       simp only [List.isEmpty_iff] at hemp
       subst hemp
-      exact List.perm_nil.mp (hs [])
+      exact List.perm_nil.mp (hs _ [])
     · simp only [Except.ok.injEq] at h; subst h; cases he
 
 end TraitsVerif.Model
